@@ -1,8 +1,82 @@
 package main
 
-// tryReplay turns a solver model of a failed obligation into a run of the real code, where a replay
-// driver exists for the obligation's family. It returns (reproduced, details); details == nil means
-// no driver applies.
+import (
+	"encoding/json"
+	"fmt"
+	"os"
+	"os/exec"
+	"path/filepath"
+	"strings"
+	"time"
+)
+
+type replayTemplate struct {
+	Pattern  string `json:"pattern"`
+	Template string `json:"template"`
+	Pkg      string `json:"pkg"`
+	Test     string `json:"test"`
+	What     string `json:"what"`
+	Loop     int    `json:"loop"`
+}
+
+func loadReplayIndex() []replayTemplate {
+	data, err := os.ReadFile("/verif/replay_templates/index.json")
+	if err != nil {
+		return nil
+	}
+	var out []replayTemplate
+	json.Unmarshal(data, &out)
+	return out
+}
+
+// runOverlayTest injects testFile into package pkgDir of repo through `go test -overlay` (nothing is
+// written into the repository) and runs the named test. It returns the combined output.
+func runOverlayTest(repo, pkgDir, testFile, testName string, race bool) (string, bool) {
+	tmp, err := os.MkdirTemp("", "govc-replay-")
+	if err != nil {
+		return err.Error(), false
+	}
+	defer os.RemoveAll(tmp)
+	ov := map[string]map[string]string{"Replace": {filepath.Join(repo, pkgDir, "zz_govc_replay_test.go"): testFile}}
+	b, _ := json.Marshal(ov)
+	ovPath := filepath.Join(tmp, "overlay.json")
+	os.WriteFile(ovPath, b, 0o644)
+	args := []string{"test", "-overlay", ovPath, "-vet=off", "-count=1", "-timeout", "120s", "-run", "^" + testName + "$"}
+	if race {
+		args = append(args, "-race")
+	}
+	args = append(args, "./"+pkgDir)
+	cmd := exec.Command("go", args...)
+	cmd.Dir = repo
+	cmd.Env = append(os.Environ(), "GOFLAGS=-mod=mod", "GOPROXY=off", "GOSUMDB=off", "GOTOOLCHAIN=local")
+	done := make(chan struct{})
+	var out []byte
+	go func() { out, _ = cmd.CombinedOutput(); close(done) }()
+	select {
+	case <-done:
+	case <-time.After(180 * time.Second):
+		cmd.Process.Kill()
+		<-done
+	}
+	return string(out), true
+}
+
+// tryReplay turns a failed obligation into a run of the real code, where a replay driver exists for the
+// obligation's family. It returns (reproduced, details); details == nil means no driver applies.
 func tryReplay(w *World, res *checkResult, g *oblGroup, o *Obligation, model map[string]string, repo, base string) (bool, map[string]interface{}) {
+	for _, rt := range loadReplayIndex() {
+		if !globMatch(rt.Pattern, g.Name) {
+			continue
+		}
+		tf := filepath.Join("/verif/replay_templates", rt.Template)
+		out, ran := runOverlayTest(repo, rt.Pkg, tf, rt.Test, strings.Contains(rt.Template, "race"))
+		rep := strings.Contains(out, "REPRODUCED") || strings.Contains(out, "DATA RACE")
+		return rep, map[string]interface{}{"driver": "template " + rt.Template, "scenario": rt.What, "ran": ran,
+			"command": fmt.Sprintf("go test -overlay <%s as %s/zz_govc_replay_test.go> -run %s ./%s", rt.Template, rt.Pkg, rt.Test, rt.Pkg),
+			"reproduced": rep, "output": truncate(out, 3000)}
+	}
+	if d := shipReplay(w, g, o, model, repo, base); d != nil {
+		return d["reproduced"] == true, d
+	}
 	return false, nil
 }
